@@ -220,7 +220,11 @@ def rich_ufo(rng, kerning=True, anchors=True, features=True, composites=True, fa
                                                {"b": "acutecomb", "m": [64, 0, 0, 64], "d": [rng.randint(200, 300) * PS, rng.randint(0, 20) * PS]}],
                             "anchors": [], "w": glyphs["a"]["w"], "h": 0, "u": [0xE1]}
         glyphs["a.alt"] = {"cs": [_box(20, 0, 200, 400)], "comps": [], "anchors": [], "w": 450 * PS, "h": 0, "u": []}
-        order += ["aacute", "a.alt"]
+        # the same base twice (a colon made of two periods)
+        glyphs["colon"] = {"cs": [], "comps": [{"b": "period", "m": [64, 0, 0, 64], "d": [0, rng.randint(250, 350) * PS]},
+                                               {"b": "period", "m": [64, 0, 0, 64], "d": [0, 0]}],
+                           "anchors": [], "w": glyphs["period"]["w"], "h": 0, "u": [0x3A]}
+        order += ["aacute", "a.alt", "colon"]
     ufo = {"glyphs": glyphs, "order": order,
            "info": {"unitsPerEm": 1000, "ascender": 800, "descender": -200, "xHeight": 500, "capHeight": 700,
                     "familyName": family, "styleName": style}}
@@ -250,6 +254,9 @@ def rich_family(rng, n_masters=2, axes=1, **kw):
         m = copy.deepcopy(base)
         m["glyphs"] = perturb_master(rng, base["glyphs"], change_2x2=0.0)
         m["info"]["styleName"] = f"Bold{k}"
+        if "colon" in m["glyphs"] and rng.random() < 0.4:
+            # the upper dot is enlarged in this master only (a 2x2 that differs between masters cannot be kept as a component)
+            m["glyphs"]["colon"]["comps"][0]["m"] = [80, 0, 0, 80]
         if "kerning" in m:
             m["kerning"] = [[l, r, v + rng.randint(-20, 20) * 4] for l, r, v in m["kerning"]]
             if rng.random() < 0.6 and len(m["kerning"]) > 2:
@@ -273,3 +280,30 @@ def rich_family(rng, n_masters=2, axes=1, **kw):
                     g["anchors"] = copy.deepcopy(a["glyphs"][n]["anchors"])
     fam = {"axes": [{"name": "Weight", "tag": "wght", "min": 400, "default": 400, "max": 700}], "masters": masters}
     return fam
+
+
+def class_kerning_family(rng, n=13):
+    """Two masters with n x n sparse class kerning (few non-zero pairs per row): GPOS table compaction
+    (fontTools.otlLib.optimize.gpos:COMPRESSION_LEVEL) then really changes the PairPos subtables."""
+    import copy
+
+    glyphs, order, groups, kerning = {}, [], [], []
+    for i in range(n):
+        for side, base in (("l", 0x41), ("r", 0x61)):
+            nm = f"{side}{i}"
+            glyphs[nm] = {"cs": [_box(20, 0, 200 + 5 * i, 400)], "comps": [], "anchors": [], "w": (400 + 10 * i) * PS, "h": 0, "u": [base + i]}
+            order.append(nm)
+        groups.append([f"public.kern1.L{i}", [f"l{i}"]])
+        groups.append([f"public.kern2.R{i}", [f"r{i}"]])
+    for i in range(n):
+        for j in {i, (i * 3 + 1) % n, (i + 5) % n}:
+            kerning.append([f"public.kern1.L{i}", f"public.kern2.R{j}", -(10 + (i * 7 + j * 3) % 60) * 4])
+    base = {"glyphs": glyphs, "order": order, "info": {"unitsPerEm": 1000, "ascender": 800, "descender": -200, "familyName": "Compact", "styleName": "Regular"},
+            "groups": groups, "kerning": kerning, "kernScale": 4, "fea": "languagesystem DFLT dflt;\nlanguagesystem latn dflt;\n"}
+    bold = copy.deepcopy(base)
+    bold["info"]["styleName"] = "Bold"
+    bold["kerning"] = [[l, r, v - 8 * (k % 3)] for k, (l, r, v) in enumerate(kerning)]
+    for g in bold["glyphs"].values():
+        g["w"] += 40 * PS
+    return {"axes": [{"name": "Weight", "tag": "wght", "min": 400, "default": 400, "max": 700}],
+            "masters": [{"loc": {"Weight": 400}, "ufo": base, "name": "Regular"}, {"loc": {"Weight": 700}, "ufo": bold, "name": "Bold"}]}
